@@ -102,3 +102,10 @@ with open(os.path.join(HERE, "MANIFEST.json"), "w") as f:
     json.dump(manifest, f, indent=1)
     f.write("\n")
 print("claimed:", sorted(CLAIMED), "n/a:", len(na))
+
+# textual rendering of the known-findings file (the JSON is what the checker reads)
+kf = json.load(open(os.path.join(HERE, "known_findings.json")))
+with open(os.path.join(HERE, "KNOWN_FINDINGS.txt"), "w") as f:
+    f.write("# generated from known_findings.json by tools/genmanifest.py — one line per entry\n")
+    for e in kf["findings"]:
+        f.write(e["line"] + "\n")
